@@ -87,12 +87,22 @@ class Run:
         env.update(GOENV)
         if race:
             env["CGO_ENABLED"] = "1"
-        try:
-            shutil.copy(os.path.join(REPO, "go.sum"), os.path.join(HARNESS, "go.sum"))
-        except OSError:
-            pass
+        # the harness module is built from a scratch copy whose replace directive points at the repository under test
+        # (normally /repo; VERIF_REPO selects another working tree, e.g. a snapshot for a background run)
+        hdir = os.path.join(self.scratch, "harness-src")
+        if not os.path.isdir(hdir):
+            shutil.copytree(HARNESS, hdir)
+            gm = os.path.join(hdir, "go.mod")
+            with open(gm) as f:
+                t = f.read()
+            with open(gm, "w") as f:
+                f.write(t.replace("=> /repo", "=> " + REPO))
+            try:
+                shutil.copy(os.path.join(REPO, "go.sum"), os.path.join(hdir, "go.sum"))
+            except OSError:
+                pass
         cmd = ["go", "build", "-tags", "verif"] + (["-race"] if race else []) + ["-o", out, "."]
-        p = subprocess.run(cmd, cwd=HARNESS, env=env, stdout=subprocess.PIPE, stderr=subprocess.STDOUT, text=True)
+        p = subprocess.run(cmd, cwd=hdir, env=env, stdout=subprocess.PIPE, stderr=subprocess.STDOUT, text=True)
         if p.returncode != 0:
             raise Inconclusive("harness build failed (does /repo still compile?):\n" + p.stdout[-3000:])
         self._pvh[key] = out
